@@ -76,7 +76,7 @@ def main(ctx):
     ctx.audit(GROUP, "planner")
     failed = ctx.prove(GROUP, "Props_C02", THEOREMS) if THEOREMS else []
     bindir = ctx.harness(GROUP, profile="release", bins=["c02"])
-    cases = ctx.gen_exec(bindir, "c02", ctx.n(300, 6000), inputs=ctx.replay_inputs())
+    cases = ctx.gen_exec(bindir, "c02", ctx.n(300, 1800), inputs=ctx.replay_inputs())
     dis = one_pass(ctx, "Graph::run-vs-naive_eval", cases, "agree", "prop_ok", "show", 40,
                    "Exec.ExecModel.naive_eval (outputs under every strategy)")
     ctx.extra["executor_model_disagreements"] = len(dis)
